@@ -915,6 +915,9 @@ impl<'a> Ctx<'a> {
       }
     }
     let ret = subst(&sig.ret, &s);
+    if sig.module != self.ms.name {
+      self.callees.push(format!("{}::{}", sig.module, sig.name));
+    }
     if sig.module == self.ms.name {
       self.callees.push(sig.name.clone());
     }
